@@ -55,6 +55,9 @@ static const char* in_child(const std::function<void()>& f, std::function<std::s
 struct layout { alignas(16) char low[256]; alignas(16) char mem[1 << 17]; alignas(16) char high[256]; };
 static layout g;
 
+// every byte of the memory the lists manage: at the moment of a report nothing may have been written (not even the freed pattern)
+static std::string mem_hash() { unsigned long long h = 1469598103934665603ULL; for (std::size_t i = 0; i < sizeof g.mem; ++i) { h ^= (unsigned char)g.mem[i]; h *= 1099511628211ULL; } char b[40]; std::snprintf(b, sizeof b, " bytes=%016llx", h); return b; }
+
 // ---------------------------------------------------------------- ordered list
 static std::string dump(ordered_free_memory_list& l)
 {
@@ -114,7 +117,7 @@ static int run_ord(std::istringstream& hs, const std::string& header)
             std::size_t k; is >> k; if (l->empty()) { std::printf("%s = skipped\n", line.c_str()); continue; }
             std::vector<char*> nodes; { char* p = l->begin_node(); char* c = xor_list_get_other(p, nullptr); while (c != l->end_node()) { nodes.push_back(c); char* n = xor_list_get_other(c, p); p = c; c = n; } }
             char* victim = nodes[k % nodes.size()];
-            const char* cls = in_child([&] { l->deallocate(victim); }, [&] { return dump(*l); });
+            const char* cls = in_child([&] { l->deallocate(victim); }, [&] { return dump(*l) + mem_hash(); });
             res = std::string(cls) + " " + std::to_string(victim - g.mem) + " index=" + std::to_string(k % nodes.size() + 1);
         }
         else if (op == "dbla")
@@ -123,7 +126,7 @@ static int run_ord(std::istringstream& hs, const std::string& header)
             std::vector<char*> nodes; { char* p = l->begin_node(); char* c = xor_list_get_other(p, nullptr); while (c != l->end_node()) { nodes.push_back(c); char* n = xor_list_get_other(c, p); p = c; c = n; } }
             char* victim = nodes[k % nodes.size()]; std::size_t bytes = nn * l->node_size();
             if (victim + bytes > g.mem + sizeof g.mem) { std::printf("%s = skipped\n", line.c_str()); continue; }
-            const char* cls = in_child([&] { l->deallocate(victim, bytes); }, [&] { return dump(*l); });
+            const char* cls = in_child([&] { l->deallocate(victim, bytes); }, [&] { return dump(*l) + mem_hash(); });
             res = std::string(cls) + " " + std::to_string(victim - g.mem) + " " + std::to_string(bytes) + " index=" + std::to_string(k % nodes.size() + 1);
         }
         else if (op == "q") res = "q";
@@ -226,7 +229,7 @@ static int run_small(std::istringstream& hs, const std::string& header)
             else if (what == "dbl") { std::size_t k; is >> k; if (freed.empty()) { std::printf("%s = skipped\n", line.c_str()); continue; } victim = freed[k % freed.size()]; tag = (k % freed.size() == freed.size() - 1) ? "dbl-latest" : "dbl"; }
             else continue;
             std::string before = dump_small(*l);
-            const char* cls = in_child([&] { l->deallocate(victim); }, [&] { return dump_small(*l); });
+            const char* cls = in_child([&] { l->deallocate(victim); }, [&] { return dump_small(*l) + mem_hash(); });
             res = std::string(cls) + " " + tag + " " + std::to_string(victim - g.mem);
         }
         else continue;
